@@ -86,4 +86,33 @@ theorem guards :
     Gen.guardReserveStatic = "<=" ∧ Gen.guardReserveInline = ">" ∧ Gen.guardInlineSetLen = "<" :=
   ⟨rfl, rfl, rfl, rfl, rfl, rfl⟩
 
+/-- (b) for the shrinking and in-place mutators: on an inline string `pop`, `truncate`, `clear`, `remove`,
+`retain` — and `insert`/`insert_str` when the result fits in 16 bytes — perform **no allocator request
+and touch no block** (the heap afterwards is the heap before, as a value), and the string is still
+inline, whatever the outcome (a value, a rejected index, a panicking predicate).  For every raw inline
+buffer, every argument, every allocator. -/
+theorem inline_edits_no_heap (rf : Refuse) (st : List Bytes) (hp : Heap) (raw : Bytes) :
+    (pop st hp (.inl raw)).InlineNoHeap hp ∧ (∀ n, (truncate st hp (.inl raw) n).InlineNoHeap hp) ∧
+    (clear hp (.inl raw)).InlineNoHeap hp ∧ (∀ i, (remove rf st hp (.inl raw) i).InlineNoHeap hp) ∧
+    (∀ answers, (retain rf st hp (.inl raw) answers).InlineNoHeap hp) ∧
+    (∀ i s, inlLen raw + s.length ≤ 16 → (insertStr rf st hp (.inl raw) i s).InlineNoHeap hp) :=
+  ⟨pop_inline st hp raw, truncate_inline st hp raw, clear_inline hp raw, remove_inline rf st hp raw,
+   retain_inline rf st hp raw, insertStr_inline rf st hp raw⟩
+
+/-- the same for the public calls of `step`: target inline ⇒ `World.heap` unchanged and target still inline -/
+theorem step_inline_edits (rf : Refuse) (w : World) (h : Nat) (raw : Bytes) (hg : w.get h = some (.inl raw)) (plain : Bool) :
+    (∀ (hu : ∀ u, pop w.statics w.heap (.inl raw) ≠ .ub u),
+      (step rf w (.pop h plain)).1.heap = w.heap ∧ ∃ raw', (step rf w (.pop h plain)).1.get h = some (.inl raw')) ∧
+    (∀ n (hu : ∀ u, truncate w.statics w.heap (.inl raw) n ≠ .ub u),
+      (step rf w (.truncate h n plain)).1.heap = w.heap ∧ ∃ raw', (step rf w (.truncate h n plain)).1.get h = some (.inl raw')) ∧
+    (∀ i (hu : ∀ u, remove rf w.statics w.heap (.inl raw) i ≠ .ub u),
+      (step rf w (.remove h i plain)).1.heap = w.heap ∧ ∃ raw', (step rf w (.remove h i plain)).1.get h = some (.inl raw')) := by
+  refine ⟨fun hu => ?_, fun n hu => ?_, fun i hu => ?_⟩
+  · simp only [step, hg]; exact finish_inline w h plain _ _ (pop_inline _ _ raw) hu
+  · simp only [step, hg]; exact finish_inline w h plain _ _ (truncate_inline _ _ raw n) hu
+  · simp only [step, hg]; exact finish_inline w h plain _ _ (remove_inline rf _ _ raw i) hu
+
+/-- non-vacuity: popping the last character of the inline string "ab" -/
+example : (pop [] {} (.inl (inlNew [0x61, 0x62]))).InlineNoHeap {} := pop_inline [] {} _
+
 end LS.C09
